@@ -8,7 +8,7 @@ Local Open Scope N_scope.
 (* ---- the round, from a net n that satisfies the invariants *)
 Section Core.
 Variables (P : list N) (lru : N) (ids : list N) (leader : N) (fresh : N * N) (root round : N) (n : net).
-Hypothesis Hwrap : 2 * ptotal P < two64.
+Hypothesis Hwrap : ptotal P < two64.
 Hypothesis Hbyz : 3 * byz_power P ids < ptotal P.
 Hypothesis HI : Inv P lru ids n.
 Hypothesis HR : InvR lru n.
@@ -252,7 +252,7 @@ Proof. unfold lock0. destruct (get_rep n i) as [r|]; [eauto|discriminate]. Qed.
 Theorem sync_round_commits powers lru (correct : list (N * N)) acts leader fresh root round :
   NoDup (map fst correct) ->
   Forall (fun e => fst e < N.of_nat (length powers)) correct ->
-  2 * total powers < two64 ->
+  total powers < two64 ->
   3 * byz_power powers (map fst correct) < total powers ->
   Forall (fun e => lru <= snd e) correct ->                              (* LastRootHeightUpdated is not ahead of any replica's root height *)
   run_ok powers lru (init_net correct) acts ->
@@ -279,7 +279,7 @@ Qed.
 Theorem sync_round_commits_highest_lock powers lru (correct : list (N * N)) acts leader fresh root round i r l :
   NoDup (map fst correct) ->
   Forall (fun e => fst e < N.of_nat (length powers)) correct ->
-  2 * total powers < two64 ->
+  total powers < two64 ->
   3 * byz_power powers (map fst correct) < total powers ->
   Forall (fun e => lru <= snd e) correct ->
   run_ok powers lru (init_net correct) acts ->
@@ -346,7 +346,7 @@ Example sync_round_needs_nonzero_locks :
   let n := run lvP 0 (init_net lvC) cex_acts in
   run_ok lvP 0 (init_net lvC) cex_acts /\ aligned n [0; 1; 2] 5 1 /\
   (exists r, get_rep n 1 = Some r /\ r_lock r = Some cex_q) /\
-  2 * total lvP < two64 /\ 3 * byz_power lvP [0; 1; 2] < total lvP /\
+  total lvP < two64 /\ 3 * byz_power lvP [0; 1; 2] < total lvP /\
   maj23 (mkConf 0 lvP 0) <= set_power (mkConf 0 lvP 0) [0; 1; 2] /\
   commits (sync_round lvP 0 [0; 1; 2] 0 (21, 22) n) = [].
 Proof.
@@ -396,7 +396,7 @@ Qed.
 Definition votes_nonzero (n : net) : Prop := forall hv, In hv (n_votes n) -> hv_block hv <> 0 /\ hv_results hv <> 0.
 
 (* a genuine full PROPOSE certificate has a correct signer, whose vote is in the history *)
-Lemma cert_nonzero P lru ids n q : 2 * ptotal P < two64 -> 3 * byz_power P ids < ptotal P -> Inv P lru ids n ->
+Lemma cert_nonzero P lru ids n q : ptotal P < two64 -> 3 * byz_power P ids < ptotal P -> Inv P lru ids n ->
   votes_nonzero n -> goodqc P lru n q 4 -> q_block q <> 0 /\ q_results q <> 0.
 Proof.
   intros Hw Hb HI Hnz Hq.
@@ -406,7 +406,7 @@ Proof.
   apply VIn_raw in Hv. destruct Hv as [pr Hv]. exact (Hnz _ Hv).
 Qed.
 
-Lemma locks_nonzero_of_votes P lru ids n : 2 * ptotal P < two64 -> 3 * byz_power P ids < ptotal P -> Inv P lru ids n ->
+Lemma locks_nonzero_of_votes P lru ids n : ptotal P < two64 -> 3 * byz_power P ids < ptotal P -> Inv P lru ids n ->
   (forall hv, In hv (n_votes n) -> hv_block hv <> 0 /\ hv_results hv <> 0) ->
   forall i r l, In i ids -> get_rep n i = Some r -> r_lock r = Some l -> q_block l <> 0 /\ q_results l <> 0.
 Proof.
@@ -417,7 +417,7 @@ Qed.
 Theorem sync_round_commits_votes powers lru (correct : list (N * N)) acts leader fresh root round :
   NoDup (map fst correct) ->
   Forall (fun e => fst e < N.of_nat (length powers)) correct ->
-  2 * total powers < two64 ->
+  total powers < two64 ->
   3 * byz_power powers (map fst correct) < total powers ->
   Forall (fun e => lru <= snd e) correct ->                              (* LastRootHeightUpdated is not ahead of any replica's root height *)
   run_ok powers lru (init_net correct) acts ->
@@ -437,7 +437,7 @@ Qed.
 Theorem sync_round_commits_highest_lock_votes powers lru (correct : list (N * N)) acts leader fresh root round i r l :
   NoDup (map fst correct) ->
   Forall (fun e => fst e < N.of_nat (length powers)) correct ->
-  2 * total powers < two64 ->
+  total powers < two64 ->
   3 * byz_power powers (map fst correct) < total powers ->
   Forall (fun e => lru <= snd e) correct ->
   run_ok powers lru (init_net correct) acts ->
@@ -514,7 +514,7 @@ Proof.
   destruct (r_phase r =? Phase_PACEMAKER); injection H as <- <-; now left.
 Qed.
 
-Lemma votes_nonzero_preserved P lru ids n a : 2 * ptotal P < two64 -> 3 * byz_power P ids < ptotal P -> Inv P lru ids n ->
+Lemma votes_nonzero_preserved P lru ids n a : ptotal P < two64 -> 3 * byz_power P ids < ptotal P -> Inv P lru ids n ->
   votes_nonzero n -> valid_sane n a -> votes_nonzero (net_step P lru n a).
 Proof.
   intros Hw Hb HI Hnz Hs.
@@ -530,7 +530,7 @@ Proof.
     apply (cert_nonzero P lru ids n (m_qc m) Hw Hb HI Hnz). repeat split; auto. lia.
 Qed.
 
-Lemma votes_nonzero_run P lru ids acts : 2 * ptotal P < two64 -> 3 * byz_power P ids < ptotal P ->
+Lemma votes_nonzero_run P lru ids acts : ptotal P < two64 -> 3 * byz_power P ids < ptotal P ->
   forall n, Inv P lru ids n -> votes_nonzero n -> run_ok P lru n acts -> run_valid_sane P lru n acts ->
   votes_nonzero (run P lru n acts).
 Proof.
@@ -544,7 +544,7 @@ Qed.
 (* hence: from the initial network, executions whose PROPOSE votes are cast on validated non-nil proposals keep every vote,
    and therefore every lock, non-nil *)
 Corollary votes_nonzero_reachable powers lru (correct : list (N * N)) acts :
-  2 * total powers < two64 -> 3 * byz_power powers (map fst correct) < total powers ->
+  total powers < two64 -> 3 * byz_power powers (map fst correct) < total powers ->
   run_ok powers lru (init_net correct) acts -> run_valid_sane powers lru (init_net correct) acts ->
   forall hv, In hv (n_votes (run powers lru (init_net correct) acts)) -> hv_block hv <> 0 /\ hv_results hv <> 0.
 Proof.
